@@ -119,10 +119,19 @@ def syslog_table_pairs(func, to_int):
                     if any(m is u for u in uses) and not any(x.k == 'CallExpr' for x in c.walk()):
                         compared.add('str' if isstr(m) else 'int')
         returned = set()
+        ret_vars = set()
         for r in C.return_nodes(func):
             for m in (r.ch[0].walk() if r.ch else ()):
                 if any(m is u for u in uses):
                     returned.add('str' if isstr(m) else 'int')
+                if m.k == 'DeclRefExpr' and m['ref'].get('kind') == 'var':
+                    ret_vars.add(m['ref']['id'])
+        # result variable filled from the table and returned at the single exit
+        for a_ in func.body.walk():
+            if a_.k == 'BinaryOperator' and a_.get('op') == '=' and (decl_of(a_.ch[0]) or {}).get('id') in ret_vars:
+                for m in a_.ch[1].walk():
+                    if any(m is u for u in uses):
+                        returned.add('str' if isstr(m) else 'int')
         want = ({'str'}, {'int'}) if to_int else ({'int'}, {'str'})
         if (compared, returned) != want:
             continue
@@ -458,7 +467,8 @@ def sentinel_rule(ctx, prog):
         # uses of a row: `return i` / indirect call through registry[i]
         uses = []
         for n in f.body.walk():
-            if n.k == 'ReturnStmt' and n.ch and decl_of(n.ch[0]) is not None and decl_of(n.ch[0])['kind'] == 'var':
+            if n.k == 'ReturnStmt' and n.ch and decl_of(n.ch[0]) is not None and decl_of(n.ch[0])['kind'] == 'var' and \
+                    '*' not in (strip(n.ch[0]).get('ct') or ''):
                 uses.append((n, decl_of(n.ch[0])['id']))
             elif n.k == 'ReturnStmt' and n.ch and strip(n.ch[0]).k == 'BinaryOperator' and strip(n.ch[0]).get('op') == '-':
                 # a row cursor walked over the table: the index is `cursor - table`
@@ -476,7 +486,43 @@ def sentinel_rule(ctx, prog):
                            (decl_of(x.ch[0]) or {}).get('kind') == 'var']
                     if cur:
                         uses.append((n, decl_of(cur[0].ch[0])['id']))
-        ok = bool(uses)
+        # one exit with a result variable: `return result` selects nothing itself - the selections are the assignments
+        # that give the result a row index (cursor - table, or the loop index)
+        row_vars = set()
+        for b_ in f.blocks.values():
+            c_ = b_.cond
+            if c_ is None:
+                continue
+            for x in c_.walk():
+                if x.k == 'MemberExpr' and x.get('arrow') and decl_of(x.ch[0]) is not None and decl_of(x.ch[0]).get('kind') == 'var':
+                    row_vars.add(decl_of(x.ch[0])['id'])
+                if x.k == 'ArraySubscriptExpr' and decl_of(x.ch[1]) is not None and decl_of(x.ch[1]).get('kind') == 'var':
+                    row_vars.add(decl_of(x.ch[1])['id'])
+                if x.k == 'UnaryOperator' and x.get('op') == '*' and decl_of(x.ch[0]) is not None and decl_of(x.ch[0]).get('kind') == 'var' \
+                        and (x.get('ct') or '').count('*') >= 1:
+                    row_vars.add(decl_of(x.ch[0])['id'])
+        expanded = []
+        for n, iv in uses:
+            if n.k == 'ReturnStmt' and iv not in row_vars and decl_of(n.ch[0]) is not None:
+                sels = []
+                for a_ in f.body.walk():
+                    if a_.k == 'BinaryOperator' and a_.get('op') == '=' and (decl_of(a_.ch[0]) or {}).get('id') == iv:
+                        vs_ = {x['ref']['id'] for x in a_.ch[1].walk() if x.k == 'DeclRefExpr' and x['ref'].get('kind') == 'var'}
+                        hit_ = vs_ & row_vars
+                        if hit_:
+                            sels.append((a_, sorted(hit_)[0]))
+                if sels:
+                    expanded += sels
+                    continue
+            expanded.append((n, iv))
+        uses = expanded
+        # an index that is the result of another checked lookup never is the terminator row (that lookup's obligation)
+        from engine.dataflow import def_exprs as _dx
+        delegated = [(n, iv) for n, iv in uses if _dx(f, iv) and all(
+            strip(x).k == 'CallExpr' and strip(x).get('callee') in SENTINEL_LOOKUPS and strip(x).get('callee') != fname
+            for x in _dx(f, iv))]
+        uses = [u for u in uses if u not in delegated]
+        ok = bool(uses) or bool(delegated)
         detail = 'no row selection found'
         for n, iv in uses:
             mentions = lambda x, iv=iv: any(y.k == 'DeclRefExpr' and y['ref'].get('id') == iv for y in x.walk())
